@@ -47,6 +47,8 @@ def oracle_group():
     assert pow(g, 16, P) == 1 and pow(g, 8, P) != 1
     return g, [pow(g, bitrev(i, 4), P) for i in range(16)]
 
+THOROUGH_MAIN_CONFIGS = ['b248s6', 'nostd']
+
 
 def run(ctx, rep):
     db = ctx.main
